@@ -187,7 +187,7 @@ var edSmallOrderY = []string{
 
 func genEd32(t *rapid.T, label string) ([]byte, string) {
 	p := modelEd25519.P
-	kind := rapid.SampledFrom([]string{"near-p", "near-L", "smallorder", "top", "random", "valid"}).Draw(t, label+".kind")
+	kind := rapid.SampledFrom([]string{"near-p", "near-L", "smallorder", "top", "random", "valid", "L-prefix", "L-prefix", "p-prefix"}).Draw(t, label+".kind")
 	var b []byte
 	switch kind {
 	case "near-p":
@@ -201,6 +201,34 @@ func genEd32(t *rapid.T, label string) ([]byte, string) {
 			v.Sub(pow2(256), big1)
 		}
 		b = bigToBytes(v, 32, true)
+	case "L-prefix", "p-prefix":
+		// agrees with the constant in every byte above position i, differs at i, anything below: the
+		// boundary cases of a byte-wise (constant-time) comparison, for EVERY byte position
+		K := bigToBytes(ordEd25519, 32, true)
+		if kind == "p-prefix" {
+			K = bigToBytes(p, 32, true)
+		}
+		i := uniformInt(t, 0, 31, label+".pos")
+		b = append([]byte(nil), K...)
+		switch rapid.SampledFrom([]string{"+1", "-1", "any"}).Draw(t, label+".delta") {
+		case "+1":
+			b[i]++
+		case "-1":
+			b[i]--
+		default:
+			b[i] = rapid.Byte().Draw(t, label+".byte")
+		}
+		low := rapid.SampledFrom([]string{"random", "zero", "ff", "same"}).Draw(t, label+".low")
+		for j := 0; j < i; j++ {
+			switch low {
+			case "random":
+				b[j] = byte(uniformInt(t, 0, 255, label+".lowbyte"))
+			case "zero":
+				b[j] = 0
+			case "ff":
+				b[j] = 0xff
+			}
+		}
 	case "smallorder":
 		b = mustHex(rapid.SampledFrom(edSmallOrderY).Draw(t, label+".so"))
 	case "top":
